@@ -80,7 +80,8 @@ InvalidResultOk(q, r) ==
 (* String() return in ANY state, as the code builds it.  v3 Base: the      *)
 (* version prefix unless unknown, then the recorded base metrics in order; *)
 (* v3 Temporal: that plus E, RL, RC always; v3 Environmental: nothing at   *)
-(* all on an invalid object, else everything; v2: recorded metrics only.   *)
+(* all on an invalid object, else everything; v2: recorded metrics only,   *)
+(* higher groups appended with a leading "/".                              *)
 (* An unknown value prints as the empty string.                            *)
 (***************************************************************************)
 CodeText(c) == IF c = UnknownCode \/ (Len(c) > 0 /\ SubSeq(c, 1, 1) = "#") THEN "" ELSE c
@@ -95,7 +96,15 @@ EncodeText(o) ==
        IN CASE o.lvl = "B" -> bs
             [] o.lvl = "T" -> ts
             [] o.lvl = "E" -> IF Invalid(o) THEN "" ELSE ts \o "/" \o JoinWith(TokensText(o, V3EnvNames), "/")
-  ELSE JoinWith(TokensText(o, SelectSeq(NamesUpTo("v2", o.lvl), LAMBDA n : n \in o.names)), "/")
+  ELSE \* v2: the recorded base metrics joined by "/", then "/name:value" appended for every recorded temporal and
+       \* environmental metric (so the text starts with "/" when no base metric is recorded)
+       LET rec(ns) == SelectSeq(ns, LAMBDA n : n \in o.names)
+           bs == JoinWith(TokensText(o, rec(V2BaseNames)), "/")
+           suffix(ns) == LET tt == TokensText(o, rec(ns))
+                         IN FoldLeft(LAMBDA acc, i : acc \o "/" \o tt[i], "", [i \in 1..Len(tt) |-> i])
+       IN CASE o.lvl = "B" -> bs
+            [] o.lvl = "T" -> bs \o suffix(V2TempNames)
+            [] o.lvl = "E" -> bs \o suffix(V2TempNames) \o suffix(V2EnvNames)
 
 \* which sentinel GetError (and Encode) report on an invalid object, as the code decides it
 \* (MODEL-DRIFT only; the properties ask for "an error", not for its kind)
